@@ -3,7 +3,7 @@ from engine.driver import poly as P
 from engine.driver.core import Ob, eq, eqs
 from engine.driver.encode import Constraint
 from spec import catalogue as cat
-from spec.treeutil import tier_caps, cap_sets
+from spec.treeutil import tier_caps, cap_sets, teqs
 
 ID = "C04"
 HARNESS = "C04_jacobians.cpp"
@@ -72,32 +72,32 @@ def obligations(enc, inst, tr):
     # ---- reported velocities
     V = [sv("V_GB%d" % b) for b in range(nb)]
     stv = [v3("st_v%d" % t) for t in range(nt)]
-    obs.append(eqs(enc, "multiplyBySystemJacobian(u) = reported V_GB", list(zip(flat(sv("Ju%d" % b) for b in range(nb)), flat(V)))))
-    obs.append(eqs(enc, "multiplyByStationJacobian(u) = reported station velocities", list(zip(flat(v3("JSu%d" % t) for t in range(nt)), flat(stv)))))
-    obs.append(eqs(enc, "multiplyByFrameJacobian(u) = (reported angular velocity, station velocity)",
+    obs.append(teqs(enc, "multiplyBySystemJacobian(u) = reported V_GB", list(zip(flat(sv("Ju%d" % b) for b in range(nb)), flat(V)))))
+    obs.append(teqs(enc, "multiplyByStationJacobian(u) = reported station velocities", list(zip(flat(v3("JSu%d" % t) for t in range(nt)), flat(stv)))))
+    obs.append(teqs(enc, "multiplyByFrameJacobian(u) = (reported angular velocity, station velocity)",
                    list(zip(flat(sv("JFu%d" % t) for t in range(nt)), flat(V[tb[t]][:3] + stv[t] for t in range(nt))))))
     # ---- operator = explicit matrix * x, all forms
     J = [[sv("J%d_%d" % (b, j)) for j in range(nu)] for b in range(nb)]
     Jx = [sv("Jx%d" % b) for b in range(nb)]
-    obs.append(eqs(enc, "multiplyBySystemJacobian(x) = calcSystemJacobian * x",
+    obs.append(teqs(enc, "multiplyBySystemJacobian(x) = calcSystemJacobian * x",
                    [(Jx[b][k], dot([J[b][j][k] for j in range(nu)], x)) for b in range(nb) for k in range(6)]))
-    obs.append(eqs(enc, "calcSystemJacobian: scalar form = SpatialVec form",
+    obs.append(teqs(enc, "calcSystemJacobian: scalar form = SpatialVec form",
                    [(o("Jflat_%d_%d" % (6 * b + k, j)), J[b][j][k]) for b in range(nb) for j in range(nu) for k in range(6)]))
     JS = [[v3("JS%d_%d" % (t, j)) for j in range(nu)] for t in range(nt)]
     JSx = [v3("JSx%d" % t) for t in range(nt)]
-    obs.append(eqs(enc, "multiplyByStationJacobian(x) = calcStationJacobian * x",
+    obs.append(teqs(enc, "multiplyByStationJacobian(x) = calcStationJacobian * x",
                    [(JSx[t][k], dot([JS[t][j][k] for j in range(nu)], x)) for t in range(nt) for k in range(3)]))
-    obs.append(eqs(enc, "calcStationJacobian: scalar form and single-task forms agree",
+    obs.append(teqs(enc, "calcStationJacobian: scalar form and single-task forms agree",
                    [(o("JSflat_%d_%d" % (3 * t + k, j)), JS[t][j][k]) for t in range(nt) for j in range(nu) for k in range(3)]
                    + [(o("oneJS%d_%d" % (j, k)), JS[nt - 1][j][k]) for j in range(nu) for k in range(3)]
                    + [(o("oneJSflat_%d_%d" % (k, j)), JS[nt - 1][j][k]) for j in range(nu) for k in range(3)]
                    + [(o("oneJSx_%d" % k), JSx[nt - 1][k]) for k in range(3)]))
     JF = [[sv("JF%d_%d" % (t, j)) for j in range(nu)] for t in range(nt)]
     JFx = [sv("JFx%d" % t) for t in range(nt)]
-    obs.append(eqs(enc, "multiplyByFrameJacobian(x) = calcFrameJacobian * x",
+    obs.append(teqs(enc, "multiplyByFrameJacobian(x) = calcFrameJacobian * x",
                    [(JFx[t][k], dot([JF[t][j][k] for j in range(nu)], x)) for t in range(nt) for k in range(6)]))
     one = sv("oneJFx")
-    obs.append(eqs(enc, "calcFrameJacobian: scalar form and single-task forms agree",
+    obs.append(teqs(enc, "calcFrameJacobian: scalar form and single-task forms agree",
                    [(o("JFflat_%d_%d" % (6 * t + k, j)), JF[t][j][k]) for t in range(nt) for j in range(nu) for k in range(6)]
                    + [(sv("oneJF%d" % j)[k], JF[nt - 1][j][k]) for j in range(nu) for k in range(6)]
                    + [(o("oneJFflat_%d_%d" % (k, j)), JF[nt - 1][j][k]) for j in range(nu) for k in range(6)]
@@ -107,19 +107,19 @@ def obligations(enc, inst, tr):
     FS = [v3in("FS%d" % t) for t in range(nt)]
     FF = [svin("FF%d" % t) for t in range(nt)]
     vec = lambda n: [o("%s_%d" % (n, i)) for i in range(nu)]
-    obs.append(eq(enc, "<F, J x> = <J^T F, x> (system)", dot(flat(FB), flat(Jx)), dot(vec("JtF"), x)))
-    obs.append(eq(enc, "<F, JS x> = <JS^T F, x> (station)", dot(flat(FS), flat(JSx)), dot(vec("JStF"), x)))
-    obs.append(eq(enc, "<F, JF x> = <JF^T F, x> (frame)", dot(flat(FF), flat(JFx)), dot(vec("JFtF"), x)))
-    obs.append(eq(enc, "single-task station transpose", dot(FS[nt - 1], JSx[nt - 1]), dot(vec("oneJStF"), x)))
-    obs.append(eq(enc, "single-task frame transpose", dot(FF[nt - 1], JFx[nt - 1]), dot(vec("oneJFtF"), x)))
+    obs.append(teqs(enc, "<F, J x> = <J^T F, x> (system)", [(dot(flat(FB), flat(Jx)), dot(vec("JtF"), x))]))
+    obs.append(teqs(enc, "<F, JS x> = <JS^T F, x> (station)", [(dot(flat(FS), flat(JSx)), dot(vec("JStF"), x))]))
+    obs.append(teqs(enc, "<F, JF x> = <JF^T F, x> (frame)", [(dot(flat(FF), flat(JFx)), dot(vec("JFtF"), x))]))
+    obs.append(teqs(enc, "single-task station transpose", [(dot(FS[nt - 1], JSx[nt - 1]), dot(vec("oneJStF"), x))]))
+    obs.append(teqs(enc, "single-task frame transpose", [(dot(FF[nt - 1], JFx[nt - 1]), dot(vec("oneJFtF"), x))]))
     # ---- bias terms
     bias = [sv("bias%d" % b) for b in range(nb)]
     biasS = [v3("biasS%d" % t) for t in range(nt)]
     biasF = [sv("biasF%d" % t) for t in range(nt)]
     Jud = [sv("Jud%d" % b) for b in range(nb)]
-    obs.append(eqs(enc, "calcBodyAccelerationFromUDot(udot) = J udot + calcBiasForSystemJacobian",
+    obs.append(teqs(enc, "calcBodyAccelerationFromUDot(udot) = J udot + calcBiasForSystemJacobian",
                    [(sv("A_ud%d" % b)[k], P.add(Jud[b][k], bias[b][k])) for b in range(nb) for k in range(6)]))
-    obs.append(eqs(enc, "bias forms agree (scalar forms, single-task forms, getTotalCoriolisAcceleration, udot of zero length)",
+    obs.append(teqs(enc, "bias forms agree (scalar forms, single-task forms, getTotalCoriolisAcceleration, udot of zero length)",
                    [(o("biasflat_%d" % (6 * b + k)), bias[b][k]) for b in range(nb) for k in range(6)]
                    + [(sv("cor%d" % b)[k], bias[b][k]) for b in range(nb) for k in range(6)]
                    + [(sv("A_0%d" % b)[k], bias[b][k]) for b in range(nb) for k in range(6)]
@@ -136,19 +136,19 @@ def obligations(enc, inst, tr):
         dv3 = lambda n: [dt("%s_%d" % (n, i)) for i in range(3)]
         dV = [dsv("V_GB%d" % b) for b in range(nb)]
         dst = [dv3("st_v%d" % t) for t in range(nt)]
-        obs.append(eqs(enc, "calcBiasForSystemJacobian = D(J(q) u; q->qdot)", list(zip(flat(bias), flat(dV)))))
-        obs.append(eqs(enc, "calcBiasForStationJacobian = D(JS(q) u; q->qdot)", list(zip(flat(biasS), flat(dst)))))
-        obs.append(eqs(enc, "calcBiasForFrameJacobian = D(JF(q) u; q->qdot)",
+        obs.append(teqs(enc, "calcBiasForSystemJacobian = D(J(q) u; q->qdot)", list(zip(flat(bias), flat(dV)))))
+        obs.append(teqs(enc, "calcBiasForStationJacobian = D(JS(q) u; q->qdot)", list(zip(flat(biasS), flat(dst)))))
+        obs.append(teqs(enc, "calcBiasForFrameJacobian = D(JF(q) u; q->qdot)",
                        list(zip(flat(biasF), flat(dV[tb[t]][:3] + dst[t] for t in range(nt))))))
     else:
         A = [sv("A_GB%d" % b) for b in range(nb)]
         sta = [v3("st_a%d" % t) for t in range(nt)]
-        obs.append(eqs(enc, "reported A_GB = J udot + JDot u (udot as reported after realize)",
+        obs.append(teqs(enc, "reported A_GB = J udot + JDot u (udot as reported after realize)",
                        [(A[b][k], P.add(sv("Judot%d" % b)[k], bias[b][k])) for b in range(nb) for k in range(6)]))
-        obs.append(eqs(enc, "reported A_GB = calcBodyAccelerationFromUDot(reported udot)",
+        obs.append(teqs(enc, "reported A_GB = calcBodyAccelerationFromUDot(reported udot)",
                        [(A[b][k], sv("A_udot%d" % b)[k]) for b in range(nb) for k in range(6)]))
-        obs.append(eqs(enc, "reported station accelerations = JS udot + JSDot u",
+        obs.append(teqs(enc, "reported station accelerations = JS udot + JSDot u",
                        [(sta[t][k], P.add(v3("JSudot%d" % t)[k], biasS[t][k])) for t in range(nt) for k in range(3)]))
-        obs.append(eqs(enc, "reported frame accelerations = JF udot + JFDot u",
+        obs.append(teqs(enc, "reported frame accelerations = JF udot + JFDot u",
                        [((A[tb[t]][:3] + sta[t])[k], P.add(sv("JFudot%d" % t)[k], biasF[t][k])) for t in range(nt) for k in range(6)]))
     return obs
